@@ -357,6 +357,10 @@ func runC11(c *core.Ctx) {
 			rr.Shuffle(len(bb), func(a, b int) { bb[a], bb[b] = bb[b], bb[a] })
 		}
 		files := map[string]string{"food.yaml": bookText(bb), "log.yaml": "2021/01/24:\n  r01: 1\n  c01: 2\n  p01: 1\n"}
+		if i%2 == 1 {
+			// every documented layout variant: blank and comment lines inside recipes, dashes, quotes, tabs, CRLF
+			files["food.yaml"] = gen.RenderBook(bb, gen.Hostile(rr))
+		}
 		args := []string{"--no-color", "-d", "food.yaml", "-l", "log.yaml"}
 		env := map[string]string{}
 		if i := strings.Index(t.via, "-over-config:"); i > 0 {
